@@ -1,7 +1,17 @@
 ------------------------------- MODULE ScanGen -------------------------------
 (* emits every configuration of Scan with the exact sequence of calls the     *)
 (* client makes (node asked, cursor sent to it, cursor returned to the client) *)
+(* as @@SCAN, and - with Withdrawals - every host set history (calls before    *)
+(* the withdrawal, hosts kept, what the saved cursor must meet, the calls of   *)
+(* the fresh iteration over the hosts kept) as @@HOSTS.                        *)
 EXTENDS Scan
-GenStep == Step /\ (done' => PrintT("@@SCAN " \o ToJson([nodes |-> ns, calls |-> calls'])))
-GenSpec == Init /\ [][GenStep]_vars
+\* node cursor values of the host set histories (the codec boundaries are covered by the @@SCAN configurations)
+GenCursorValsQuick == {Base - 1}
+GenCursorValsFull == {1, Base - 1}
+GenStep ==
+  /\ Step
+  /\ (done' /\ epoch = 0 /\ ~Withdrawals) => PrintT("@@SCAN " \o ToJson([nodes |-> ns, calls |-> calls']))
+  /\ (done' /\ epoch = 1) => PrintT("@@HOSTS " \o ToJson([probe |-> probe[1], nodes |-> ns, calls |-> calls']))
+GenNext == GenStep \/ Withdraw
+GenSpec == Init /\ [][GenNext]_vars
 =============================================================================
